@@ -55,15 +55,16 @@ func planKey(f float64) (int64, bool) {
 	return -int64(b &^ (1 << 63)), true
 }
 
-// planSynScore: integer-valued score in [0,p) that the Coq side (PlanCorr.syn_score) computes
-// exactly; no intermediate exceeds 2^53.
-func planSynScore(p int64) func([]mergeplan.Segment, *mergeplan.Options) float64 {
-	red := func(x int64) int64 { return ((x % p) + p) % p }
+// planSynScore: integer-valued score in [0,2^k) that the Coq side (PlanCorr.syn_score) computes
+// exactly: t = (h*31 + id + 7*live + full) & (2^k-1); h = (t*2654435761) & (2^k-1).  The callers keep ids < 2^32 and
+// |sizes| < 2^44, so nothing overflows int64; k <= 30.
+func planSynScore(k uint) func([]mergeplan.Segment, *mergeplan.Options) float64 {
+	mask := int64(1)<<k - 1
 	return func(segs []mergeplan.Segment, _ *mergeplan.Options) float64 {
 		var h int64
 		for _, s := range segs {
-			id := int64(s.ID() % uint64(p))
-			h = (h*1000003 + id*7919 + red(s.LiveSize())*104729 + red(s.FullSize())) % p
+			t := (h*31 + int64(s.ID()) + 7*s.LiveSize() + s.FullSize()) & mask
+			h = (t * 2654435761) & mask
 		}
 		return float64(h)
 	}
@@ -111,6 +112,17 @@ func planGenOpts(rng *rand.Rand, mode int) mergeplan.Options {
 		o.MaxSegmentsPerTier = 1 + rng.Intn(3)
 		o.SegmentsPerMergeTask = 1 + rng.Intn(3)
 	}
+	// CalcBudget walks the staircase one tier per iteration: with a growth below 2 the tiers may
+	// never grow (int64(1*1.5) = 1) and the call takes totalSize/(M*firstTier) iterations.  Keep
+	// that quotient small (a large floor relative to the maximum) so that a call stays cheap.
+	if o.TierGrowth < 2 {
+		if o.MaxSegmentSize > 200000 {
+			o.MaxSegmentSize = int64(1000 + rng.Intn(100000))
+		}
+		if o.FloorSegmentSize < o.MaxSegmentSize/50 {
+			o.FloorSegmentSize = o.MaxSegmentSize / 50
+		}
+	}
 	if mode == 1 {
 		switch rng.Intn(6) {
 		case 0:
@@ -120,11 +132,17 @@ func planGenOpts(rng *rand.Rand, mode int) mergeplan.Options {
 		case 2:
 			o.MaxSegmentsPerTier = rng.Intn(3) - 1
 		case 3:
-			o.MaxSegmentSize = mergeplan.MaxSegmentSizeLimit + 1 + int64(rng.Intn(1000))
+			if o.TierGrowth >= 2 {
+				o.MaxSegmentSize = mergeplan.MaxSegmentSizeLimit + 1 + int64(rng.Intn(1000))
+			}
 		case 4:
-			o.MaxSegmentSize = math.MaxInt64 - int64(rng.Intn(3))
+			if o.TierGrowth >= 2 {
+				o.MaxSegmentSize = math.MaxInt64 - int64(rng.Intn(3))
+			}
 		case 5:
-			o.FloorSegmentSize = -int64(rng.Intn(50))
+			if o.TierGrowth >= 2 {
+				o.FloorSegmentSize = -int64(rng.Intn(50))
+			}
 		}
 	}
 	return o
@@ -691,7 +709,7 @@ func planHistory(w *cq.Writer, rng *rand.Rand, o *mergeplan.Options, batches int
 
 func runPlan(o Opts) error {
 	rng := rand.New(rand.NewSource(o.Seed))
-	w := cq.New(o.Out, "From Coq Require Import QArith.\nFrom Bluge Require Import Base.Res MergePlan.Budget MergePlan.Plan MergePlan.PlanCorr.", "pcase", 40)
+	w := cq.New(o.Out, "From Coq Require Import QArith.\nFrom Bluge Require Import Base.Res MergePlan.Budget MergePlan.Plan MergePlan.PlanCorr.", "pcase", 64)
 	scale := 1
 	if o.Thorough() {
 		scale = 10
@@ -817,48 +835,51 @@ func runPlan(o Opts) error {
 	}
 
 	// ---- CPlanS: synthetic integer score, larger lists
-	primes := []int64{2, 3, 7, 101, 65537, 2147483629}
+	primes := []uint{1, 2, 3, 7, 16, 30}
 	nS := 120 * scale
+	nBig := 0
 	for i := 0; i < nS; i++ {
+		if i%40 == 0 {
+			// thousands of segments (one per shard: the model costs ~n*SegmentsPerMergeTask steps
+			// per loop iteration): mostly tiny sizes against a large maximum, far over budget
+			opt := mergeplan.DefaultMergePlanOptions
+			n := 1000 + rng.Intn(600)
+			switch nBig % 3 {
+			case 1:
+				opt.MaxSegmentsPerTier = 12 + rng.Intn(9)
+				opt.SegmentsPerMergeTask = 8 + rng.Intn(5)
+				opt.TierGrowth = []float64{2, 4, 8}[rng.Intn(3)]
+				n = 1800 + rng.Intn(500)
+			case 2: // a wide staircase: a large budget, fewer loop iterations
+				opt.MaxSegmentsPerTier = 600 + rng.Intn(300)
+				opt.SegmentsPerMergeTask = 12
+				n = 3000 + rng.Intn(1000)
+			}
+			nBig++
+			segs := planGenSegs(rng, n, &opt, 1, false)
+			for _, s := range segs {
+				if rng.Intn(8) != 0 {
+					s.live = s.live % 5000
+					s.full = s.live + (s.full % 2 * (s.live / 2))
+				}
+			}
+			planSynCase(w, rng, segs, &opt, primes[3+rng.Intn(3)], "thousands")
+			continue
+		}
 		mode := 0
 		if i%9 == 8 {
 			mode = 1
 		}
 		opt := planGenOpts(rng, mode)
 		n := 2 + rng.Intn(150)
-		if i%20 == 0 {
-			n = 300 + rng.Intn(300)
-		}
 		style := rng.Intn(7)
+		if i%20 == 10 { // a few hundred, in the shapes where rosters fill up quickly
+			n = 300 + rng.Intn(300)
+			style = []int{1, 5, 6}[rng.Intn(3)]
+		}
 		segs := planGenSegs(rng, n, &opt, style, mode == 1)
 		planSynCase(w, rng, segs, &opt, primes[rng.Intn(len(primes))], fmt.Sprintf("style%d", style))
 	}
-	// thousands of segments: small sizes against a large maximum so that rosters fill up
-	nBig := 3
-	if o.Thorough() {
-		nBig = 12
-	}
-	for i := 0; i < nBig; i++ {
-		opt := mergeplan.DefaultMergePlanOptions
-		if i%3 == 1 {
-			opt.MaxSegmentsPerTier = 3 + rng.Intn(8)
-			opt.SegmentsPerMergeTask = 2 + rng.Intn(10)
-			opt.TierGrowth = []float64{2, 4, 8, 10}[rng.Intn(4)]
-		}
-		n := 1000 + rng.Intn(1500)
-		if i%3 == 2 {
-			n = 3000 + rng.Intn(1000)
-		}
-		segs := planGenSegs(rng, n, &opt, 1, false)
-		for _, s := range segs { // mostly tiny: far over budget
-			if rng.Intn(8) != 0 {
-				s.live = s.live % 5000
-				s.full = s.live + (s.full % 2 * (s.live / 2))
-			}
-		}
-		planSynCase(w, rng, segs, &opt, primes[3+rng.Intn(3)], "thousands")
-	}
-
 	// ---- simulated histories: arrivals, deletions, plan executions, then settle
 	nH := 24 * scale
 	for i := 0; i < nH; i++ {
@@ -981,7 +1002,10 @@ func planTableCase(w *cq.Writer, rng *rand.Rand, segs []*planSeg, opt *mergeplan
 		"plan-table:"+kind, planNumTasks(r.plan) > 0, map[string]interface{}{"input": planInput(segs, opt), "out": planTaskIDs(r.plan)})
 }
 
-func planSynCase(w *cq.Writer, rng *rand.Rand, segs []*planSeg, opt *mergeplan.Options, p int64, kind string) {
+func planSynCase(w *cq.Writer, rng *rand.Rand, segs []*planSeg, opt *mergeplan.Options, p uint, kind string) {
+	for _, s := range segs { // the synthetic score needs small ids
+		s.id &= 1<<32 - 1
+	}
 	oo := *opt
 	oo.ScoreSegments = planSynScore(p)
 	r := planChecked(w, rng, segs, &oo, false)
@@ -989,6 +1013,6 @@ func planSynCase(w *cq.Writer, rng *rand.Rand, segs []*planSeg, opt *mergeplan.O
 		return
 	}
 	planCountInput(w, segs, opt, r.plan)
-	w.Add(fmt.Sprintf("CPlanS %s %s %s %s", planCoqOpts(opt), planCoqSegs(segs), cq.Z(p), planCoqOut(r.plan)),
+	w.Add(fmt.Sprintf("CPlanS %s %s %s %s", planCoqOpts(opt), planCoqSegs(segs), cq.I(int(p)), planCoqOut(r.plan)),
 		"plan-synthetic:"+kind, planNumTasks(r.plan) > 0, map[string]interface{}{"input": planInput(segs, opt), "p": p, "out_tasks": planNumTasks(r.plan)})
 }
